@@ -54,8 +54,12 @@ func (g *Generator) FuncToString(f *model.Function) string {
 		sb.WriteString(f.Src.FullType())
 	}
 
-	for _, args := range f.AdditionalArgs {
-		sb.WriteString(", ")
+	for i, args := range f.AdditionalArgs {
+		// No separator in front of the very first parameter: with a receiver and return
+		// style neither the destination nor the source precedes the additional arguments.
+		if 0 < i || f.Receiver == "" || f.DstVarStyle == model.DstVarArg {
+			sb.WriteString(", ")
+		}
 		sb.WriteString(args.Name)
 		sb.WriteString(" ")
 		sb.WriteString(args.FullType())
